@@ -52,7 +52,8 @@ def gadget_sat(rep, tier, wd):
     from concurrent.futures import ThreadPoolExecutor
     cases = []
     for P in ((5,) if tier == "quick" else (5, 7)):
-        for op, params in GS_OPS + (GS_SLOW if tier == "thorough" else []):
+        # (the lookup-heavy operations of GS_SLOW are searched over F_5 only: over F_7 their state space does not finish)
+        for op, params in GS_OPS + (GS_SLOW if tier == "thorough" and P == 5 else []):
             cases.append({"op": op, "params": params, "p": P, "k": 6})
     if tier == "quick":
         cases += [{"op": op, "params": params, "p": 7, "k": 6} for op, params in [("mul", []), ("is_zero", []), ("select", []), ("xor", [2]), ("div", [])]]
